@@ -73,7 +73,7 @@ func (r *remote) reaped() {
 }
 
 func newRemote(e *env) *remote {
-	r := &remote{e: e, maxMB: 128, cpuMax: 10 * time.Second, wallMax: 300 * time.Second}
+	r := &remote{e: e, maxMB: 128, cpuMax: 6 * time.Second, wallMax: 300 * time.Second}
 	r.srvFile = filepath.Join(e.scratch, "server.json")
 	v := core.Violation{Property: prop, Key: "server", Replay: []byte(`{"entry":"@server"}`)}
 	b, _ := json.Marshal(v)
